@@ -147,6 +147,13 @@ def emit_attrs(rng, F, attrs):
             styled.append((k, v))
         else:
             plain.append((k, v))
+    if styled and rng.random() < 0.3:
+        # the same property also as a presentation attribute with another value: the declaration must win
+        k, v = rng.choice(styled)
+        other = {"fill": "yellow", "opacity": "0.9", "fill-opacity": "0.3", "fill-rule": "nonzero" if v == "evenodd" else "evenodd", "stroke": "lime",
+                 "stroke-width": "4", "display": "inline", "stroke-opacity": "0.8"}.get(k)
+        if other is not None and other != v and not any(pk == k for pk, _ in plain):
+            plain.append((k, other))
     s = "".join(' %s="%s"' % kv for kv in plain)
     if styled:
         sep = rng.choice([";", "; ", " ; "])
@@ -277,7 +284,12 @@ class Gen:
         rng = self.rng
         kids = "".join(self.node(depth + 1) for _ in range(rng.randint(1, 3)))
         at = ' x="%s" y="%s" width="%s" height="%s"' % (num(rng, 0, 40, 0), num(rng, 0, 40, 0), num(rng, 20, 60, 0), num(rng, 20, 60, 0))
-        if rng.random() < 0.7:
+        x, y, w, h = num(rng, 0, 40, 0), num(rng, 0, 40, 0), num(rng, 20, 60, 0), num(rng, 20, 60, 0)
+        at = ' x="%s" y="%s" width="%s" height="%s"' % (x, y, w, h)
+        if rng.random() < 0.1:
+            # a viewBox that coincides with the viewport: the content is not moved at all
+            at += ' viewBox="%s %s %s %s"' % (x, y, w, h)
+        elif rng.random() < 0.7:
             at += ' viewBox="%s %s %s %s"' % (num(rng, 0, 20, 0), num(rng, 0, 20, 0), num(rng, 40, 120, 0), num(rng, 40, 120, 0))
             if rng.random() < 0.6:
                 a = rng.choice(["none", "xMinYMin", "xMidYMid", "xMaxYMax", "xMinYMax", "xMidYMin"])
@@ -310,8 +322,11 @@ class Gen:
         at = ""
         units = rng.choice([None, "userSpaceOnUse", "objectBoundingBox"])
         pct = units != "userSpaceOnUse" and rng.random() < 0.5
+        upct = units == "userSpaceOnUse" and rng.random() < 0.3
         def c(lo, hi):
             if units == "userSpaceOnUse":
+                if upct and rng.random() < 0.6:
+                    return "%d%%" % round(rng.uniform(lo, hi) * 100)     # resolved against the viewport width / height
                 return num(rng, lo * 100, hi * 100)
             return ("%d%%" % round(rng.uniform(lo, hi) * 100)) if pct else num(rng, lo, hi, 2)
         if lin:
@@ -367,7 +382,7 @@ class Gen:
             defs += [self.clippath() for _ in range(rng.randint(1, 3))]
         body = [self.node(1) for _ in range(rng.randint(1, F.max_children + 1))]
         root = ""
-        vb = rng.choice(["0 0 100 100", "0 0 100 100", "0 0 128 128", "10 10 80 80"])
+        vb = rng.choice(["0 0 100 100", "0 0 100 100", "0 0 128 128", "10 10 80 80", "0 0 120 80", "0 0 90 140"])
         if rng.random() < 0.9:
             root += ' viewBox="%s"' % vb
         else:
